@@ -26,6 +26,7 @@ import PicoSVG.Model.Passes
 import PicoSVG.Proofs.CascadeP
 import Mathlib.Tactic.Ring
 import Mathlib.Tactic.Linarith
+import Mathlib.Algebra.Order.Field.Basic
 
 namespace PicoSVG.Props.C05
 
@@ -174,5 +175,32 @@ theorem display_none_inherits (attrib child : Attrs) (name : String) (h : Attrs.
 
 /-- non-vacuity: fill="red" style="fill:blue; fill : lime" ends up lime -/
 example : CascadeP.lastDecl "fill" [("fill", "blue"), ("opacity", "0.5"), ("fill", "lime")] = some "lime" := by decide
+
+section
+variable {β : Type} [Field β] [LinearOrder β] [IsStrictOrderedRing β]
+
+/-- `_clamp`: the result is always a legal opacity -/
+theorem clamp01_range (v : β) : 0 ≤ Groups.clamp01 v ∧ Groups.clamp01 v ≤ 1 := by
+  unfold Groups.clamp01
+  by_cases h1 : (1 : β) < v
+  · simp only [h1, if_true]
+    have : ¬ (1 : β) < 0 := not_lt.mpr zero_le_one
+    simp [this]
+  · simp only [h1, if_false]
+    by_cases h0 : v < 0
+    · simp [h0]
+    · simp only [h0, if_false]
+      exact ⟨not_lt.mp h0, not_lt.mp h1⟩
+
+/-- clamping twice is clamping once -/
+theorem clamp01_idem (v : β) : Groups.clamp01 (Groups.clamp01 v) = Groups.clamp01 v := by
+  have h := clamp01_range v
+  generalize Groups.clamp01 v = c at h
+  unfold Groups.clamp01
+  have h1 : ¬ (1 : β) < c := not_lt.mpr h.2
+  have h0 : ¬ c < 0 := not_lt.mpr h.1
+  simp [h1, h0]
+
+end
 
 end PicoSVG.Props.C05
